@@ -219,7 +219,8 @@ def snap(a):
         return ("I", snap(a.t_from), snap(a.t_to), a.mstart, a.mend)
     if isinstance(a, Duration):
         return ("D", a.value, a.unit, a.mstart, a.mend)
-    return ("M", a.mstart, a.mend, tuple(sorted((k, repr(v)) for k, v in a.match.g.items())))
+    # (no repr(): rendering a symbolic integer is expensive and not the subject)
+    return ("M", a.mstart, a.mend, tuple((k, v.v if isinstance(v, W.Num) else v) for k, v in sorted(a.match.g.items())))
 
 
 def in_dom(p) -> bool:
